@@ -11,7 +11,8 @@ Record ainv (lo : N) (st : astate) : Prop := {
   ai_sorted : StronglySorted (fun a b => fst b < fst a) (a_calls st);
   ai_bound : forall x, In x (a_calls st) -> fst x <= a_index st /\ lo < fst x;
   ai_disk : a_disk st = true -> forall x, In x (a_calls st) -> a_init st < fst x;
-  ai_lo : lo <= a_index st
+  ai_lo : lo <= a_index st;
+  ai_streams : a_guard st = true -> forall l od, In (Some (l, od)) (a_streams st) -> od <= l
 }.
 
 Lemma sticky_entry st e : a_err st <> 0 -> handle_entry st e = st.
@@ -29,11 +30,11 @@ Proof. unfold handle_tasks. induction q; simpl; auto. intros st H. rewrite stick
 (* one entry handled without a panic *)
 Lemma ainv_entry lo st e : ainv lo st -> a_err (handle_entry st e) = 0 -> ainv lo (handle_entry st e).
 Proof.
-  intros [Hs Hb Hd Hl] He. unfold handle_entry in *.
+  intros [Hs Hb Hd Hl Hst] He. unfold handle_entry in *.
   destruct (negb (a_err st =? 0)); [constructor; auto|].
   destruct (negb (a_index st + 1 =? e_index e)) eqn:E; [simpl in He; discriminate|].
   apply negb_false_iff in E. apply N.eqb_eq in E.
-  match goal with |- ainv _ (mkA _ _ _ (if ?d then _ else _) _) => destruct d eqn:Ed end.
+  match goal with |- ainv _ (mkA _ _ _ (if ?d then _ else _) _ _ _) => destruct d eqn:Ed end.
   - constructor; simpl; auto.
     + constructor; auto. apply Forall_forall. intros x Hx. destruct (Hb x Hx). simpl. lia.
     + intros x [<-|Hx]; simpl; [lia|]. destruct (Hb x Hx). lia.
@@ -63,9 +64,17 @@ Proof.
     + apply ainv_entries; auto.
     + simpl in He. discriminate.
   - destruct (ss_index <=? a_index st) eqn:E; auto. apply N.leb_gt in E.
-    destruct H as [Hs Hb Hd Hl]. constructor; simpl; auto.
+    destruct H as [Hs Hb Hd Hl Hst]. constructor; simpl; auto.
     + intros x Hx. destruct (Hb x Hx). lia.
     + lia.
+  - destruct H as [Hs Hb Hd Hl Hst]. constructor; simpl; auto.
+    intros Hg l od [X|X]; [|eapply Hst; eauto].
+    rewrite Hg in X. simpl in X. rewrite orb_false_r in X.
+    destruct (negb (a_disk st) || (a_init st <=? a_index st)) eqn:Er; [|discriminate].
+    destruct (a_disk st) eqn:Edk; [|inversion X; subst; lia].
+    simpl in Er. apply N.leb_le in Er.
+    destruct (a_calls st) as [|c r] eqn:Ec; inversion X; subst; [lia|].
+    destruct (Hb c) as [Y _]; [left; auto|]. simpl. lia.
 Qed.
 
 Lemma ainv_tasks lo q : forall st, ainv lo st -> a_err (handle_tasks st q) = 0 -> ainv lo (handle_tasks st q).
@@ -76,8 +85,11 @@ Proof.
   - pose proof (sticky_tasks q (handle_task st a) E) as X. unfold handle_tasks in X. rewrite X in He. contradiction.
 Qed.
 
-Lemma ainv_start applied init disk : ainv applied (a_start applied init disk).
+Lemma ainv_start_g g applied init disk : ainv applied (a_start_g g applied init disk).
 Proof. constructor; simpl; auto; try contradiction. constructor. lia. Qed.
+
+Lemma ainv_start applied init disk : ainv applied (a_start applied init disk).
+Proof. apply ainv_start_g. Qed.
 
 Lemma sorted_rev_lt l :
   StronglySorted (fun a b : N * N => fst b < fst a) l -> StronglySorted (fun a b => fst a < fst b) (rev l).
@@ -107,7 +119,7 @@ Theorem ondisk_never_at_or_below_open_index_proved :
   In x (calls_of (handle_tasks (a_start applied init true) q)) -> init < fst x /\ applied < fst x.
 Proof.
   intros applied init q x He Hx. unfold calls_of in Hx. apply in_rev in Hx.
-  pose proof (ainv_tasks applied q _ (ainv_start applied init true) He) as [Hs Hb Hd Hl].
+  pose proof (ainv_tasks applied q _ (ainv_start applied init true) He) as [Hs Hb Hd Hl _].
   assert (Hdk : a_disk (handle_tasks (a_start applied init true) q) = true).
   { clear. unfold handle_tasks. generalize (a_start applied init true) (eq_refl : a_disk (a_start applied init true) = true).
     induction q; simpl; auto. intros st Hst. apply IHq.
@@ -181,7 +193,8 @@ Proof.
   - repeat split; auto. congruence.
   - destruct Hc as [H1 H2].
     assert (Hstep : handle_entry st e = mkA (e_index e) (a_init st) (a_disk st)
-              (if delivered (a_disk st) (a_init st) e then (e_index e, e_payload e) :: a_calls st else a_calls st) 0).
+              (if delivered (a_disk st) (a_init st) e then (e_index e, e_payload e) :: a_calls st else a_calls st) 0
+              (a_guard st) (a_streams st)).
     { unfold handle_entry, delivered. rewrite He. simpl. rewrite H1. rewrite N.eqb_refl. simpl. reflexivity. }
     rewrite Hstep.
     match goal with |- context [fold_left handle_entry r ?s] => set (st1 := s) end.
@@ -235,3 +248,41 @@ Proof.
   destruct (tasks_chained bs (a_start applied init disk) eq_refl Hc) as [H1 H2]. simpl in *.
   split; auto. unfold calls_of. rewrite H2. rewrite app_nil_r. apply rev_involutive.
 Qed.
+
+Lemma guard_entries l : forall st, a_guard (fold_left handle_entry l st) = a_guard st.
+Proof.
+  induction l; simpl; auto. intros st. rewrite IHl. unfold handle_entry.
+  destruct (negb (a_err st =? 0)); auto. destruct (negb (a_index st + 1 =? e_index a)); auto.
+Qed.
+
+Lemma guard_const q : forall st, a_guard (handle_tasks st q) = a_guard st.
+Proof.
+  unfold handle_tasks. induction q; simpl; auto. intros st. rewrite IHq.
+  unfold handle_task. destruct (negb (a_err st =? 0)); auto. destruct a; auto.
+  - destruct (entries_to_apply l (a_index st)); auto. apply guard_entries.
+  - destruct (ss_index <=? a_index st); auto.
+Qed.
+
+(* a streamed image never contains more than its label says: an on-disk replica that is still
+   catching up with its own on-disk state (applied index below the index returned by Open) is
+   refused (ReadyToStream) *)
+Theorem stream_label_covers_image_proved :
+  forall applied init disk q l od,
+  a_err (handle_tasks (a_start applied init disk) q) = 0 ->
+  In (Some (l, od)) (streams_of (handle_tasks (a_start applied init disk) q)) -> od <= l.
+Proof.
+  intros applied init disk q l od He Hin. unfold streams_of in Hin. apply in_rev in Hin.
+  pose proof (ainv_tasks applied q _ (ainv_start applied init disk) He) as [_ _ _ _ Hst].
+  eapply Hst; eauto.
+  rewrite guard_const. reflexivity.
+Qed.
+
+(* without that guard: Open returned 6, the replica has replayed up to 4 and streams *)
+Theorem ready_to_stream_guard_needed_proved :
+  streams_of (handle_tasks (a_start_g false 2 6 true) [TEntries [mkEntry 3 KUpdate 7; mkEntry 4 KUpdate 8]; TStream])
+    = [Some (4, 6)]
+  /\ streams_of (handle_tasks (a_start 2 6 true) [TEntries [mkEntry 3 KUpdate 7; mkEntry 4 KUpdate 8]; TStream;
+                                                   TEntries [mkEntry 5 KUpdate 9; mkEntry 6 KUpdate 1; mkEntry 7 KUpdate 2]; TStream])
+    = [None; Some (7, 7)].
+Proof. vm_compute. split; reflexivity. Qed.
+
